@@ -1165,23 +1165,33 @@ func (c *Check) derivedQueueOrder(rule string) {
 					continue
 				}
 				app, ok := st.Val.(*ssa.Call)
-				if !ok || len(app.Call.Args) != 2 {
-					continue
-				}
-				if bi, isB := app.Call.Value.(*ssa.Builtin); !isB || bi.Name() != "append" {
-					continue
-				}
-				// the appended slice: a whole queue list (a load of VoterQueue.OnBoarding / OffBoarding)
-				ld, ok := app.Call.Args[1].(*ssa.UnOp)
 				if !ok {
 					continue
 				}
-				qa, ok := ld.X.(*ssa.FieldAddr)
-				if !ok || namedOf(qa.X.Type()) == nil || namedOf(qa.X.Type()).Obj().Name() != "VoterQueue" {
+				// append(voters, queue.X...) or slices.Concat(voters, queue.X)
+				var tail []ssa.Value
+				if bi, isB := app.Call.Value.(*ssa.Builtin); isB && bi.Name() == "append" && len(app.Call.Args) == 2 {
+					tail = app.Call.Args[1:]
+				} else if cf := calleeFunc(&app.Call); cf != nil && cf.Pkg() != nil && cf.Pkg().Path() == "slices" && cf.Name() == "Concat" && len(app.Call.Args) == 1 {
+					if el := r.sliceLiteralElems(app.Call.Args[0]); len(el) >= 2 {
+						tail = el[1:]
+					}
+				}
+				// the appended slice: a whole queue list (a load of VoterQueue.OnBoarding / OffBoarding)
+				var listV ssa.Value
+				var qa *ssa.FieldAddr
+				for _, tv := range tail {
+					if ld, ok := tv.(*ssa.UnOp); ok {
+						if fa2, ok := ld.X.(*ssa.FieldAddr); ok && namedOf(fa2.X.Type()) != nil && namedOf(fa2.X.Type()).Obj().Name() == "VoterQueue" {
+							listV, qa = tv, fa2
+						}
+					}
+				}
+				if qa == nil {
 					continue
 				}
 				q := fieldName(qa.X.Type(), qa.Field)
-				list := r.E(app.Call.Args[1])
+				list := r.E(listV)
 				n++
 				c.touch(f)
 				// keyed by what is copied into what, not by the function that happens to do it
